@@ -21,11 +21,13 @@ import (
 	"log/slog"
 	"strconv"
 	"strings"
+	"sync"
 	"testing"
 	"time"
 
 	"github.com/twmb/franz-go/pkg/kmsg"
 	clientv3 "go.etcd.io/etcd/client/v3"
+	"go.uber.org/zap"
 
 	"github.com/KafScale/platform/internal/testutil"
 	"github.com/KafScale/platform/pkg/acl"
@@ -93,7 +95,7 @@ type c19World struct {
 }
 
 func (w *c19World) newMgr(b int) *metadata.PartitionLeaseManager {
-	cli, err := clientv3.New(clientv3.Config{Endpoints: w.endpoints, DialTimeout: 5 * time.Second})
+	cli, err := clientv3.New(clientv3.Config{Endpoints: w.endpoints, DialTimeout: 5 * time.Second, Logger: zap.NewNop()})
 	if err != nil {
 		w.t.Fatalf("etcd client: %v", err)
 	}
@@ -110,13 +112,21 @@ type c19Lease struct {
 	b int
 }
 
-var c19Current = map[*c19Lease]clientv3.LeaseID{}
+// leases granted through a manager's client and not yet expired by the harness (AcquireAll
+// acquires concurrently, so two sessions may be created at once; the manager keeps one and
+// closes the other)
+var (
+	c19Mu      sync.Mutex
+	c19Current = map[*c19Lease][]clientv3.LeaseID{}
+)
 
 func (l *c19Lease) Grant(ctx context.Context, ttl int64) (*clientv3.LeaseGrantResponse, error) {
 	resp, err := l.Lease.Grant(ctx, ttl)
 	if err == nil {
+		c19Mu.Lock()
 		l.w.granted = append(l.w.granted, resp.ID)
-		c19Current[l] = resp.ID
+		c19Current[l] = append(c19Current[l], resp.ID)
+		c19Mu.Unlock()
 	}
 	return resp, err
 }
@@ -140,12 +150,16 @@ func (w *c19World) setup(op c19Setup) {
 		// expire the manager's current session: revoke its lease and wait until the manager noticed
 		cli := m.EtcdClient()
 		l := cli.Lease.(*c19Lease)
-		id, ok := c19Current[l]
-		if !ok {
+		c19Mu.Lock()
+		ids := c19Current[l]
+		delete(c19Current, l)
+		c19Mu.Unlock()
+		if len(ids) == 0 {
 			return
 		}
-		delete(c19Current, l)
-		_, _ = w.root.Revoke(ctx, id)
+		for _, id := range ids {
+			_, _ = w.root.Revoke(ctx, id)
+		}
 		// the keep-alive stream learns about the revocation with the next keep-alive; closing the
 		// lessor ends it at once (Done() fires, monitorSession clears the ownership map)
 		_ = l.Lease.Close()
@@ -173,7 +187,9 @@ func (w *c19World) setup(op c19Setup) {
 		old := m
 		cli := old.EtcdClient()
 		if l, ok := cli.Lease.(*c19Lease); ok {
+			c19Mu.Lock()
 			delete(c19Current, l)
+			c19Mu.Unlock()
 			_ = l.Lease.Close()
 		}
 		w.old = append(w.old, old)
@@ -190,7 +206,9 @@ func (w *c19World) cleanup() {
 	_, _ = w.root.Delete(ctx, metadata.PartitionLeasePrefix()+"/", clientv3.WithPrefix())
 	for _, c := range w.clients {
 		if l, ok := c.Lease.(*c19Lease); ok {
+			c19Mu.Lock()
 			delete(c19Current, l)
+			c19Mu.Unlock()
 		}
 		_ = c.Close()
 	}
@@ -549,7 +567,7 @@ func c19Coq(cs c19Case, o c19Obs) string {
 func TestVerifC19(t *testing.T) {
 	rep := vNewReport("C19", "generated produce requests (1-3 topic entries x 1-3 partition entries incl. duplicates, an ACL-denied topic, undecodable batches; acks -1/1/0) sent through the real handler whose PartitionLeaseManager shares an embedded etcd with a second broker, after a generated lease pre-state (0-6 acquire/release/expire/restart/ReleaseAll calls on both brokers); non-trivial = the request names at least one partition this broker ends up owning and at least one it does not; distinct = distinct cases")
 	endpoints := testutil.StartEmbeddedEtcd(t)
-	root, err := clientv3.New(clientv3.Config{Endpoints: endpoints, DialTimeout: 5 * time.Second})
+	root, err := clientv3.New(clientv3.Config{Endpoints: endpoints, DialTimeout: 5 * time.Second, Logger: zap.NewNop()})
 	if err != nil {
 		t.Fatalf("etcd client: %v", err)
 	}
